@@ -1,2 +1,3 @@
 pub mod seq;
 pub mod syncmon;
+pub mod restart;
